@@ -196,7 +196,10 @@ CHECKS["C03"] = dict(
           dict(name="real", pkg="./tun", go=GO, test="TestC03R", shards=(4, 16), checks=(40, 600), timeout=(600, 3000)),
           # real clock: a Send left unacknowledged while the gateway forces a reconnect (new or same channel) keeps
           # retransmitting the request it transmitted first, and nothing else leaves in between
-          dict(name="real-reconnect", pkg="./tun", go=GO, test="TestC03RR", shards=(4, 16), checks=(6, 60), timeout=(600, 3000))],
+          dict(name="real-reconnect", pkg="./tun", go=GO, test="TestC03RR", shards=(4, 16), checks=(6, 60), timeout=(600, 3000)),
+          # the sender's clauses on the wire of a kernel UDP socket with traffic in both directions: one well-formed frame per
+          # datagram, consecutive numbers, repetitions identical - while acknowledgements leave through the same socket
+          dict(name="sock", pkg="./sock", go=GO, test="TestC03Sock", shards=(2, 8), checks=(8, 150), timeout=(600, 3000))],
 )
 
 CHECKS["C04"] = dict(
@@ -228,7 +231,7 @@ CHECKS["C13"] = dict(
     level_text=("Sampled schedules on the real clock with one-sided oracles: start(i+1) - end(i) >= pause for every successful transmission, "
                 "no transmission earlier than hand-over + min(wait, 50 ms) once the lock was seen held at idle, a silence of at least "
                 "min(wait, 50 ms) somewhere after a busy taken in under saturation, every Send returns within 5 s."),
-    level_note="Trusted: memsock stamps (entry on call, exit just before return), the TryLock probe VerifSendLocked (used to sequence the harness, never as an oracle), VerifNewRouter. The 'at most one further transmission per goroutine already inside Send' clause is scheduler dependent: it is measured and reported in the evidence (class 'saturated: k transmissions between hand-over and silence'), not asserted.",
+    level_note="Trusted: memsock stamps (entry on call, exit just before return), the TryLock probe VerifSendLocked (used to sequence the harness, never as an oracle), VerifNewRouter. The 'at most one further transmission per goroutine already inside Send' clause is scheduler dependent in a single run: in the saturated scenario it is measured and reported in the evidence (class 'saturated: k transmissions between hand-over and silence'); it is asserted in the barge scenario only, on the minimum over up to 10 rounds and with a threshold of 2 x senders + 8.",
     technique="rapid-generated concurrent histories on the real clock with lower-bound timing oracles and bounded liveness",
     assumptions=_RTR_ASSUME,
     jobs=[dict(name="real", pkg="./rtr", go=GO, test="TestC13", shards=(6, 16), checks=(60, 500), timeout=(600, 3000))],
@@ -469,6 +472,23 @@ _R11 = {
     "C19": " Every registered name under 59 decorations (NUL, blank, line-end, byte-order-mark padding before and after; quotes; DPT prefixes; other separators; full-width digits).",
 }
 for _k, _v in _R11.items():
+    RULE_ADDENDA[_k] = RULE_ADDENDA.get(_k, "") + _v
+# round 12 of the seeded changes
+_R12 = {
+    "C01": " A third of the UDP plans of the socket job contain 1..3 datagrams of 1022..1026, 1500, 2048 or 4000 octets (judged as the receiver sees them: cut to its 1024-octet buffer).",
+    "C03": " Job sock: a UDP tunnel through a kernel socket with traffic in both directions (40..300 events out, indications in, stop-and-wait) against a loopback gateway that checks every datagram (one well-formed frame), consecutive request numbers and octet-identical repetitions.",
+    "C04": " The loopback gateways of the socket job write 0x00/0x01/0x80/0xff into the reserved octet of the connection header of their requests.",
+    "C05": " A quarter of the plans are C17 plans (bursts, stalls of the application, repetitions of the last request, disconnect requests between bursts) judged under the symmetric clause: order oracle plus receiver model.",
+    "C07": " Per main number 8 goroutines decode, encode and render their own values 400 times; every encoding and rendering is compared with the one made alone.",
+    "C08": " 40 (thorough: 400) fresh child processes in which 16 goroutines walk through all types behind a barrier per type, so that the first decode + String()/Unit()/Pack() of every type in the process is concurrent; the texts must equal a later sequential rendering.",
+    "C09": " Within an epoch the request behind one whose Send succeeded carries the next number (counter-restarted). A sixth of the UDP plans are 2..4 connections that come and go without a Send, followed by 3..5 acknowledged Sends.",
+    "C12": " In the tunnel mode of the socket job the gateway ends the connection in the middle of half of the plans; the client reconnects, both sides restart their numbering, the remaining events follow.",
+    "C13": " Scenario barge: no post-send pause, 1..8 senders calling Send back to back (6000+ transmissions), a busy indication (40 ms) after 0.3..1.5 ms; up to 10 rounds through a trace-free runner; the smallest number of transmissions that began between the serve loop's intake and the silence is judged (violation above 2 x senders + 8 in every round).",
+    "C15": " A third of the description responses hold 1..4 kept blocks without data (nil and empty, kept and other types) put into the value by hand.",
+    "C17": " Header fields of inbound telegrams are a function of the tag: all four priorities, both repeat flags, hop counts 0..7, 250 different senders.",
+    "C20": " A fifth of the matching description responses lack the device-information block, the service-families block or both (built by cutting blocks out of the complete response).",
+}
+for _k, _v in _R12.items():
     RULE_ADDENDA[_k] = RULE_ADDENDA.get(_k, "") + _v
 for _k, _add in RULE_ADDENDA.items():
     if " Non-trivial =" in CHECKS[_k]["rule"]:
